@@ -198,7 +198,8 @@ def _answer_pred(ctx, repo, m, fn, k, accs):
     where = f"{m.rel}:{fn.lineno}"
     pname = fn.args.args[0].arg
     decided = False
-    for p in enum_paths(fn.body):
+    from ..paths import decide_by_assignments
+    for p in enum_paths(fn.body, decide=decide_by_assignments):
         conds = {ast.unparse(t): tr for t, tr in p.conds()}
         guard = conds.get(f"{pname}.has_avp('result_code_avp')")
         if guard is not True:
